@@ -683,6 +683,34 @@ fn stream_pass(acc: &mut Acc, n_docs: usize) {
                 }
             });
             let key = |clause: &str| format!("{}|stream of {} documents, failing mask {:#b}|{}", clause, n_docs, mask, ["garde", "validator"][krate as usize]);
+            // the streaming iterators: one item per document, Err exactly for the failing ones, in order
+            {
+                let items: Result<Vec<bool>, String> = guarded(|| {
+                    let mut rd = std::io::Cursor::new(text.as_bytes().to_vec());
+                    if krate == 0 {
+                        serde_saphyr::read_valid::<_, g::Root>(&mut rd).take(n_docs + 2).map(|r| r.is_ok()).collect()
+                    } else {
+                        serde_saphyr::read_validate::<_, v::Root>(&mut rd).take(n_docs + 2).map(|r| r.is_ok()).collect()
+                    }
+                });
+                acc.execs += 1;
+                acc.compared += 1;
+                let want: Vec<bool> = (0..n_docs).map(|d| mask & (1 << d) == 0).collect();
+                match items {
+                    Err(p) => acc.add_violation(key("panic_iterator"), "panic", p, json!({"mask": mask, "n": n_docs}), json!({})),
+                    Ok(got) => {
+                        if got != want {
+                            acc.add_violation(
+                                key("iterator_items_differ"),
+                                "iterator_items_differ",
+                                format!("validating iterator yields Ok/Err pattern {:?}, the documents are valid/invalid as {:?}", got, want),
+                                json!({"mask": mask, "n": n_docs}),
+                                json!({}),
+                            );
+                        }
+                    }
+                }
+            }
             match res {
                 Err(p) => acc.add_violation(key("panic"), "panic", p, json!({"mask": mask, "n": n_docs}), json!({})),
                 Ok(Ok(n)) => {
